@@ -101,7 +101,7 @@ def sourcesOf : Elem → List (Str × Str)
   | .ext name typ => [((externalInst name typ).name, (externalInst name typ).src.getD [])]
 
 def sources (es : List Elem) : List (Str × Str) :=
-  es.flatMap sourcesOf ++ (if anyLastSaved es then [(lastSavedInst.name, lastSavedInst.src.getD [])] else [])
+  es.flatMap sourcesOf ++ (if anyLastSaved es || secLastSaved es then [(lastSavedInst.name, lastSavedInst.src.getD [])] else [])
 
 /-! ### the oracle -/
 
